@@ -4,25 +4,25 @@ import importlib, json, os, sys
 HERE = os.path.dirname(os.path.dirname(os.path.abspath(__file__)))
 sys.path.insert(0, HERE)
 TECH = {
- "C01": "path-condition implication over the CFG of Packet.from_bytes (boolean abstraction), struct-format and slice agreement, dominance of authentication over effects, def-use of header/datagram pairs",
+ "C01": "path-condition implication and an authentication edge cut over the CFG of Packet.from_bytes (boolean abstraction), struct-format and composed-slice agreement, dominance of authentication over effects, thin-wrapper rule for the AES-GCM helpers",
  "C02": "CFG dominance of signature verification over field stores, taint of verified bytes, sibling agreement of the two HKDF derivations, control dependence of promotion on token validation",
  "C03": "who-may-write / who-may-call rules, dominance of the rate cap and of the single sequence increment, folded ring-turn arithmetic, path-condition analysis of the clear-text exemption",
  "C04": "interval (comparison-partition) abstract interpretation of BitField.insert per window width; dominance of the duplicate test; origin tracking of retransmitted message numbers",
- "C05": "constant-program evaluation of Packet.setMTU and the packing guards for all 989 MTUs (capacity inequalities), name resolution (symtable), def-use plumbing of the retry mode",
+ "C05": "constant-program evaluation of Packet.setMTU per MTU, linear accounting model of the packing loops anchored on the admit statement (CFG conditions, values through temporaries), offset abstraction of the fragment split, cell analysis of the message window, who-may-raise / who-may-discard rules, shared codec obligations",
  "C06": "writer/reader struct-format and slice agreement of the fragment layer, capacity equalities per MTU, who-may-call delivery rules",
- "C07": "sibling cross-check of _handle_ack/_handle_timeout, control dependence of callback verdicts, one-shot typestate of RetrySender / FragmentSender",
+ "C07": "sibling cross-check of _handle_ack/_handle_timeout, edge cut for the success verdict, one-shot typestate of RetrySender / FragmentSender, shared capacity, codec and ack-geometry obligations",
  "C08": "interval abstract interpretation of SeqNum.__add__/__sub__/diff over the whole raw range; exhaustive encoder/decoder geometry agreement over all window offsets",
- "C09": "struct-format agreement of header and message framing, capacity arithmetic per MTU against field capacities, possibly-unbound-local analysis of the send paths",
+ "C09": "struct-format agreement of header and message framing, cursor model (linear forms) of the multi-message decoder, linear accounting model of the packing loops per MTU against field capacities, possibly-unbound-local analysis of the send paths",
  "C10": "typestate on the connected pool via CFG must-pass-through (including exceptional edges), handler containment, call-graph reachability from foreign thread entry points, key-kind agreement",
  "C11": "dominance of the block-list test, try/except containment rules, closed list of uncontained calls in the main loop, guarded-reply rules for the hello path",
  "C12": "name resolution, declared/read attribute agreement between client, context and connection classes, control-dependence sets of the keep-alive and timeout statements",
  "C13": "writer/reader table folding and struct-format agreement; interval analysis of serialize_int against struct ranges",
  "C14": "decoder call graph; loop-bound and consumption rules, allocation-sink scan with positive control, closed-universe dispatch rules",
- "C15": "sibling-dispatch agreement between toJson and fromJson (AST comparison of corresponding branches)",
- "C16": "regular-expression AST analysis (FIRST sets, capture counts, character classes) of the fragments concatenated by patternToRegex; first-match rules on getRoute",
- "C17": "dominance of a recognised containment guard over every return of path_join_safe, def-use identity of the guarded and the returned value",
- "C18": "interval analysis of the two length-form encoders over payload_length, reaching definitions on the parse side, flag geometry agreement, shape rule for the frame read loop",
- "C19": "exception-discipline table over verify_password, dominance of verification over the True result, writer/reader agreement of the hash string layout",
+ "C15": "abstract interpretation of the toJson / fromJson container dispatch over a term language (rules/jsonshape.py), decision-path sets of the basic converters, sibling agreement of the enum name maps",
+ "C16": "partial evaluation of Router.patternToRegex on constant patterns (engine/minieval.py, the program is not run) and differencing of the built texts into per-kind fragments; regular-expression AST analysis (FIRST sets, capture counts, character classes) of the fragments; first-match rules on getRoute; fresh-container rule for the route table",
+ "C17": "edge cut over the CFG of path_join_safe: with the out-edges of the classified containment tests removed no return is reachable; def-use identity of the guarded and the returned value",
+ "C18": "interval (cell) exploration of the two length-form encoders over payload_length with the packed values captured, reaching definitions on the parse side, flag geometry and RFC 6455 opcode agreement, straight-line symbolic evaluation of the frame factories, shape rule for the frame read loop",
+ "C19": "exception-discipline table over verify_password, dominance of verification over the True result, writer/reader agreement of the hash string layout on flattened byte-string terms, edge cuts for method/version and length validation, reaching definitions of the salt",
  "C20": "key-kind (NAME vs class) agreement on registered_events, guard-polarity contradiction rule, sibling agreement of register/unregister",
 }
 from rules.common import IDIOMS_NOTE
@@ -54,7 +54,7 @@ man = {
  "hooks": {"guard": "NSETZER_MPGAMESERVER_VERIF", "enable": "none needed: the checks read the source of /repo, they never import or run it", "baseline_off_cmd":
            "cd /repo && /venv/bin/python -m pytest -ra -q -p no:cacheprovider --timeout=900 --continue-on-collection-errors", "source_commits": [], "add_only": True},
  "engines": [{"name": "static-rules", "path": "engine/", "serves_properties": ["C%02d" % i for i in range(1, 21)],
-              "kind_free_text": "stdlib-only static analysis engine: index (E0), constant folder (E1), CFG with dominators (E2), boolean abstraction of path conditions (E3), interval / comparison-partition abstract interpreter (E4), reaching definitions (E5), call graph (E6), name resolution (E7), struct-format and regex-AST readers (E8)"}],
+              "kind_free_text": "stdlib-only static analysis engine: index (E0), constant folder (E1), CFG with dominators (E2), boolean abstraction of path conditions (E3), interval / comparison-partition abstract interpreter (E4), reaching definitions (E5), call graph (E6), name resolution (E7), struct-format and regex-AST readers (E8), partial evaluator for pure builders (E9), translation of refactored code towards the reference spelling (engine/refnames.py)"}],
  "checks": checks,
  "notes": "All 20 properties are claimed at level 'other' for named structural clauses (see DESIGN.md section 4 and 7 for what is not decided). Exit 0: all obligations hold or are listed known findings; exit 1: VIOLATION lines; exit 2: ANALYSIS-ERROR (missing anchor / construct outside the rule's model) - never an alarm. Known findings: known_findings.json.",
  "not_applicable": [],
